@@ -65,6 +65,47 @@ theorem add_reaction_step (y : Sys) (g : Good y.s) (r : Id) (lb ub : EB) (ps : L
     (hnew : y.s.hasR r = false) (hle : EB.le lb ub = true) (hu : r ∈ y.s.univR) (fr : Fresh y.s r)
     (hm : ∀ p ∈ ps, y.s.hasM p.1 = true) : Step y (addRxn y r lb ub ps) := addRxn_step y g r lb ub ps hnew hle hu fr hm
 
+/-- `Model.add_boundary(metabolite, type)` for a built-in type, when it goes through (metabolite of the model, in the external compartment for an
+exchange, identifier free and within the modelled pool): the model gains exactly the reaction `EX_/DM_/SK_<metabolite>` with the metabolite at
+coefficient −1, bounds `(default lb, default ub)` — `(0, default ub)` for a demand —, no rule, objective coefficient 0; nothing else changes -/
+theorem add_boundary_spec (y : Sys) (m : Id) (t : BType) (ext : Bool) (dlb dub : EB)
+    (hm : y.s.hasM m = true) (hext : t = .exchange → ext = true) (hfree : y.s.hasR (t.rid m) = false)
+    (hle : EB.le (t.bounds dlb dub).1 (t.bounds dlb dub).2 = true) (hu : t.rid m ∈ y.s.univR) (hf : freshNames y.s (t.rid m) = true) :
+    (apply y (.addBoundary m t ext dlb dub)).2 = none ∧
+    let s' := (apply y (.addBoundary m t ext dlb dub)).1.s
+    s'.hasR (t.rid m) = true ∧ s'.lb (t.rid m) = (t.bounds dlb dub).1 ∧ s'.ub (t.rid m) = (t.bounds dlb dub).2 ∧
+    (∀ x, s'.st (t.rid m) x = if x = m then -1 else 0) ∧ s'.rule (t.rid m) = none ∧ s'.obj (t.rid m) = 0 ∧
+    (∀ x, x ≠ t.rid m → s'.hasR x = y.s.hasR x ∧ s'.lb x = y.s.lb x ∧ s'.ub x = y.s.ub x ∧ (∀ k, s'.st x k = y.s.st x k)) ∧
+    s'.hasM = y.s.hasM ∧ s'.hasG = y.s.hasG := by
+  have hlt : EB.lt (t.bounds dlb dub).2 (t.bounds dlb dub).1 = false := EB.lt_false_of_le hle
+  have hex : (t = .exchange && !ext) = false := by
+    cases t <;> simp_all
+  have happ : apply y (.addBoundary m t ext dlb dub) = (addRxn y (t.rid m) (t.bounds dlb dub).1 (t.bounds dlb dub).2 [(m, -1)], none) := by
+    simp only [apply, hm, hfree, hlt, hu, hf, Bool.not_true, Bool.false_eq_true, if_false, decide_true, Bool.and_self, if_true]
+    simp [hex]
+  rw [happ]
+  refine ⟨rfl, ?_⟩
+  obtain ⟨a1, a2, a3, a4, a5, a6, a7, a8, a9, _⟩ := addRxn_effect y (t.rid m) (t.bounds dlb dub).1 (t.bounds dlb dub).2 [(m, -1)]
+  refine ⟨a1, a2, a3, ?_, a5, a6, fun x hx => ⟨(a7 x hx).1, (a7 x hx).2.1, (a7 x hx).2.2.1, (a7 x hx).2.2.2.2.1⟩, a8, a9⟩
+  intro x
+  rw [a4 x]
+  by_cases hx : x = m
+  · subst hx; simp [stOf]
+  · have : (m == x) = false := by simpa using fun h => hx h.symm
+    simp [stOf, this, hx]
+
+/-- `Model.add_boundary` refuses what it documents: a metabolite outside the external compartment for an exchange, an identifier that is taken —
+and changes nothing then -/
+theorem add_boundary_refusals (y : Sys) (m : Id) (t : BType) (ext : Bool) (dlb dub : EB) (hm : y.s.hasM m = true)
+    (h : (t = .exchange ∧ ext = false) ∨ y.s.hasR (t.rid m) = true) :
+    apply y (.addBoundary m t ext dlb dub) = (y, some .value) := by
+  simp only [apply, hm, Bool.not_true, Bool.false_eq_true, if_false]
+  rcases h with ⟨rfl, rfl⟩ | h
+  · simp
+  · split
+    · rfl
+    · simp [h]
+
 /-- `Model.add_metabolites([Metabolite(m)])` for an id new to the model does what it documents and nothing else: the metabolite is listed, lists no
 reaction, has an (empty) steady-state row; every other metabolite, row and back-reference, and everything about reactions, genes, variables,
 objective and direction is untouched -/
